@@ -36,3 +36,14 @@ Theorem C11_lookup : forall scu u cls,
   (exists x, get_scu scu u cls = Some x) <-> (In cls scu /\ exists id t, In (id, cls, t) u).
 Proof. exact get_scu_spec. Qed.
 Print Assumptions C11_lookup.
+
+(* requester and acceptor together (C09 + C11): after negotiation both sides hold the same table of
+   usable presentation contexts — what the requester regards as usable is exactly what the acceptor will
+   serve: same ids, abstract syntaxes, transfer syntaxes, order — for EVERY acceptor configuration and
+   EVERY set of proposed contexts with distinct ids *)
+Theorem C11_both_sides_agree : forall (cfg : acfg) (tss : list bytes) (all : list (N * bytes)),
+  NoDup (map fst all) -> forall ctxs, incl ctxs all ->
+  usable all (answers cfg (proposals_of tss ctxs))
+  = served_table (proposals_of tss ctxs) (answers cfg (proposals_of tss ctxs)).
+Proof. exact both_sides_agree. Qed.
+Print Assumptions C11_both_sides_agree.
